@@ -59,6 +59,24 @@ def location(t, env):
     return lvalue_location(("idx", t, ZERO), env)
 
 
+def map_terms(effs, fn):
+    """a copy of an effect tree with fn applied to every term it holds (values, lvalues, conditions, loop bounds, arguments)"""
+    def is_term(x):
+        return isinstance(x, tuple) and x and isinstance(x[0], str)
+
+    def go(x):
+        if isinstance(x, dict):
+            return {k_: (v_ if k_ in ("node", "fn") else go(v_)) for k_, v_ in x.items()}
+        if isinstance(x, list):
+            return [go(y) for y in x]
+        if is_term(x):
+            return fn(x)
+        if isinstance(x, tuple):
+            return tuple(go(y) for y in x)
+        return x
+    return go(effs)
+
+
 def interpret(effs, env, handler, limit=200000, on_segment=None):
     """on_segment(env, loop effect) is called where the executor re-reads local variables that a loop modifies: at the start of
     every iteration and after the loop (terms in between are expressed over the values at that point; derived induction variables
